@@ -109,11 +109,33 @@ theorem sign_issued {cfg : Cfg} {t : Token} {c : CSR} {ud : Option UserData} {en
     · cases h
     · split at h
       · cases h
-      · rename_i h1 h2 h3
-        injection h with h
-        subst h
-        simp at h1 h2 h3
-        exact ⟨h1, h2, h3.2, rfl⟩
+      · split at h
+        · cases h
+        · split at h
+          · cases h
+          · split at h
+            · cases h
+            · rename_i h1 h2 _ _ _ h3
+              injection h with h
+              subst h
+              simp at h1 h2 h3
+              exact ⟨h1, h2, h3.2, rfl⟩
+
+/-- an issued request was not denied by a webhook -/
+theorem sign_issued_webhooks {cfg : Cfg} {t : Token} {c : CSR} {ud : Option UserData} {enc : Enc} {crt : Cert}
+    (h : sign cfg t c ud enc = .issued crt) : enc.whEnrich ≠ some false ∧ enc.whAuthz ≠ some false := by
+  unfold sign at h
+  split at h
+  · cases h
+  · split at h
+    · cases h
+    · split at h
+      · cases h
+      · split at h
+        · cases h
+        · split at h
+          · cases h
+          · rename_i h3 _ h4; exact ⟨h3, h4⟩
 
 /-! ## 1. names_exact -/
 
@@ -161,7 +183,7 @@ example :
     let i : San := ⟨.ip, s "::ffff:10.0.0.1", s "10.0.0.1"⟩
     let g : Ext := ⟨0, [48, 0]⟩
     sign ⟨.jwk, false, noClaims, noClaims, g⟩ ⟨a, [i, a], .absent, none, none, none, []⟩
-      ⟨true, s "a.example.com", [s "a.example.com"], [s "10.0.0.1"], [], [], 1, true, []⟩ none ⟨true, true⟩
+      ⟨true, s "a.example.com", [s "a.example.com"], [s "10.0.0.1"], [], [], 1, true, []⟩ none ⟨true, true, none, none⟩
     = .issued ⟨s "a.example.com", [s "a.example.com"], [s "10.0.0.1"], [], [], 1, [g]⟩ := by decide
 
 /-! ## 2. csr_extra_refused: never widened, never narrowed -/
@@ -252,7 +274,7 @@ theorem issued_request_shape (cfg : Cfg) (t : Token) (c : CSR) (ud : Option User
 example :
     let a : San := ⟨.dns, s "a", s "a"⟩
     sign ⟨.jwk, false, noClaims, noClaims, ⟨0, []⟩⟩ ⟨a, [a], .absent, none, none, none, []⟩
-      ⟨true, [], [s "a", s "b"], [], [], [], 1, true, []⟩ none ⟨true, true⟩ = .refused 403 := by decide
+      ⟨true, [], [s "a", s "b"], [], [], [], 1, true, []⟩ none ⟨true, true, none, none⟩ = .refused 403 := by decide
 
 /-! ## 3. oidc_nonadmin_names -/
 
@@ -285,7 +307,7 @@ example :
     let u : San := ⟨.uri, s "https://idp#1", s "https://idp#1"⟩
     let g : Ext := ⟨0, [48, 0]⟩
     sign ⟨.oidc false, false, noClaims, noClaims, g⟩ ⟨⟨.dns, s "1", s "1"⟩, [], .absent, some e, some u, none, []⟩
-      ⟨true, s "evil", [s "evil.example.com"], [], [], [], 1, true, []⟩ none ⟨true, true⟩
+      ⟨true, s "evil", [s "evil.example.com"], [], [], [], 1, true, []⟩ none ⟨true, true, none, none⟩
     = .issued ⟨s "1", [], [], [s "a@example.com"], [s "https://idp#1"], 1, [g]⟩ := by decide
 
 /-! ## 4. ext_once -/
@@ -385,6 +407,8 @@ theorem ext_disabled_absent (cfg : Cfg) (t : Token) (c : CSR) (ud : Option UserD
     | oidc a => cases a <;> simp [authorize, hp, ht]
     | nebula => simp [authorize, hp, ht]
     | k8ssa => simp [authorize, hp, ht]
+    | acme => simp [authorize, hp, ht]
+    | scep => simp [authorize, hp, ht]
   rcases this with h1 | h1 <;> simp [finalCert, modifyExt, hd, applyTemplate, h1, applyLeaf, applyAdmin]
 
 /-- **extDisabled_iff.** The extension is disabled exactly when the *effective*
@@ -435,11 +459,11 @@ theorem other_claims_irrelevant (cfg : Cfg) (a b a' b' : Option Bool) (t : Token
 example :
     let tok : Token := ⟨⟨.dns, s "a", s "a"⟩, [], .absent, none, none, none, []⟩
     let csr : CSR := ⟨true, [], [], [], [], [], 1, true, []⟩
-    sign ⟨.jwk, false, ⟨some true, none, none⟩, noClaims, ⟨0, [1]⟩⟩ tok csr none ⟨true, true⟩
+    sign ⟨.jwk, false, ⟨some true, none, none⟩, noClaims, ⟨0, [1]⟩⟩ tok csr none ⟨true, true, none, none⟩
       = .issued ⟨s "a", [s "a"], [], [], [], 1, [⟨0, [1]⟩]⟩ ∧
-    sign ⟨.jwk, false, ⟨none, some true, none⟩, noClaims, ⟨0, [1]⟩⟩ tok csr none ⟨true, true⟩
+    sign ⟨.jwk, false, ⟨none, some true, none⟩, noClaims, ⟨0, [1]⟩⟩ tok csr none ⟨true, true, none, none⟩
       = .issued ⟨s "a", [s "a"], [], [], [], 1, []⟩ ∧
-    sign ⟨.jwk, false, ⟨none, some true, none⟩, ⟨none, some false, none⟩, ⟨0, [1]⟩⟩ tok csr none ⟨true, true⟩
+    sign ⟨.jwk, false, ⟨none, some true, none⟩, ⟨none, some false, none⟩, ⟨0, [1]⟩⟩ tok csr none ⟨true, true, none, none⟩
       = .issued ⟨s "a", [s "a"], [], [], [], 1, [⟨0, [1]⟩]⟩ := by decide
 
 /-- a forged extension in front of and behind another one: replaced, the rest refused as duplicate -/
@@ -464,7 +488,7 @@ theorem csr_ext_unreachable (cfg : Cfg) (t : Token) (c : CSR) (e : List Ext) (ud
 
 example :
     sign ⟨.jwk, false, noClaims, noClaims, ⟨0, [1]⟩⟩ ⟨⟨.dns, s "a", s "a"⟩, [], .absent, none, none, none, []⟩
-      ⟨true, [], [], [], [], [], 1, true, [⟨0, [66]⟩]⟩ (some ⟨[⟨0, [67]⟩], 5⟩) ⟨true, true⟩
+      ⟨true, [], [], [], [], [], 1, true, [⟨0, [66]⟩]⟩ (some ⟨[⟨0, [67]⟩], 5, true⟩) ⟨true, true, none, none⟩
     = .issued ⟨s "a", [s "a"], [], [], [], 1, [⟨0, [1]⟩]⟩ := by decide
 
 /-! ## 6. the source-derived tables and the model -/
@@ -500,9 +524,10 @@ theorem phase_order (cfg : Cfg) (t : Token) (c : CSR) (ud : Option UserData) (en
   rfl
 
 /-- **options_match_plan.** What `authorize` puts into the plan is exactly what the option lists in
-    jwk.go / x5c.go / oidc.go contain (tables re-derived from the source on every run): the SAN
-    validator, the common-name validator and its flavour, the fingerprint validator; and every
-    list carries the provisioner-extension modifier, the template options and the key validator. -/
+    jwk.go / x5c.go / oidc.go / nebula.go / k8sSA.go / acme.go / scep.go contain (tables re-derived
+    from the source on every run): the SAN validator, the common-name validator and its flavour,
+    the fingerprint validator; every list carries the provisioner-extension modifier and a key
+    validator, and the template options (ACME and SCEP: appended by the protocol layer). -/
 theorem options_match_plan (cfg : Cfg) (t : Token) :
     (.sans ∈ optionSource cfg.prov ↔ (authorize cfg t).sans = some (effSans t)) ∧
     (.sans ∉ optionSource cfg.prov ↔ (authorize cfg t).sans = none) ∧
@@ -512,14 +537,83 @@ theorem options_match_plan (cfg : Cfg) (t : Token) :
     (.fingerprint ∈ optionSource cfg.prov → (authorize cfg t).cnf = t.cnf) ∧
     (.fingerprint ∉ optionSource cfg.prov → (authorize cfg t).cnf = .absent) ∧
     (.nebulaSans ∈ optionSource cfg.prov ↔ (authorize cfg t).neb.isSome = true) ∧
-    .provExt ∈ optionSource cfg.prov ∧ .templateOptions ∈ optionSource cfg.prov ∧
-    .pubKey ∈ optionSource cfg.prov := by
+    .provExt ∈ optionSource cfg.prov ∧
+    (.templateOptions ∈ optionSource cfg.prov ∨ cfg.prov = .acme ∨ cfg.prov = .scep) ∧
+    (.pubKey ∈ optionSource cfg.prov ∨ .pubKeyMinLen ∈ optionSource cfg.prov) := by
   cases hp : cfg.prov with
   | jwk => simp [authorize, hp, optionSource]
   | x5c => simp [authorize, hp, optionSource]
   | oidc a => simp [authorize, hp, optionSource]
   | nebula => simp [authorize, hp, optionSource]
   | k8ssa => simp [authorize, hp, optionSource]
+  | acme => simp [authorize, hp, optionSource]
+  | scep => simp [authorize, hp, optionSource]
+
+/-- **every_provisioner_records_itself.** Every `AuthorizeSign` implementation in
+    authority/provisioner that returns an option list at all (i.e. every provisioner type that can
+    issue: ACME, AWS, Azure, GCP, JWK, K8sSA, Nebula, OIDC, SCEP, X5C) puts the provisioner-extension
+    modifier into it; the only lists without it belong to `noop` (the list is the provisioner
+    alone) — table re-derived from the source on every run (`src fn=allsign`). Together with
+    `ext_once` (which holds for every configuration) this is the clause "every issued certificate
+    records which provisioner authorized it" for all provisioner types, cloud ones included. -/
+theorem every_provisioner_records_itself :
+    ∀ e ∈ allSignSource, e.2 = .extTpl ∨ e.2 = .ext ∨ e.2 = .none ∨ (e.2 = .self ∧ e.1 = "noop") := by
+  decide
+
+theorem issuing_provisioners_listed :
+    (allSignSource.filter fun e => e.2 == .extTpl || e.2 == .ext).map (·.1) =
+      ["ACME", "AWS", "Azure", "GCP", "JWK", "K8sSA", "Nebula", "OIDC", "SCEP", "X5C"] := by decide
+
+/-! ## 6b. webhooks -/
+
+/-- **webhook_allow_neutral.** A provisioner's ENRICHING / AUTHORIZING webhooks that answer "allow"
+    change nothing: whatever data the enriching webhook returns (it lands under `.Webhooks` of the
+    template data, which the default templates do not read), the outcome is the one without webhooks. -/
+theorem webhook_allow_neutral (cfg : Cfg) (t : Token) (c : CSR) (ud : Option UserData) (enc : Enc)
+    (he : enc.whEnrich ≠ some false) (ha : enc.whAuthz ≠ some false) :
+    sign cfg t c ud enc = sign cfg t c ud { enc with whEnrich := none, whAuthz := none } := by
+  unfold sign encOK
+  simp [he, ha]
+
+/-- **webhook_only_refuses.** Webhooks can turn an issuance into a refusal and nothing else: a
+    certificate issued with webhooks configured is the certificate issued without them. -/
+theorem webhook_only_refuses (cfg : Cfg) (t : Token) (c : CSR) (ud : Option UserData) (enc : Enc) (crt : Cert)
+    (h : sign cfg t c ud enc = .issued crt) :
+    sign cfg t c ud { enc with whEnrich := none, whAuthz := none } = .issued crt := by
+  obtain ⟨he, ha⟩ := sign_issued_webhooks h
+  rw [← webhook_allow_neutral cfg t c ud enc he ha]; exact h
+
+/-- **webhook_deny_refused.** A denying webhook means no certificate. -/
+theorem webhook_deny_refused (cfg : Cfg) (t : Token) (c : CSR) (ud : Option UserData) (enc : Enc)
+    (hd : enc.whEnrich = some false ∨ enc.whAuthz = some false) (crt : Cert) :
+    sign cfg t c ud enc ≠ .issued crt := by
+  intro h
+  obtain ⟨h1, h2⟩ := sign_issued_webhooks h
+  rcases hd with hd | hd
+  · exact h1 hd
+  · exact h2 hd
+
+/-- **user_data_shape.** With a template that prints the user's `extensions`, user data that does
+    not decode as a list of extensions never yields a certificate (the decoder refuses the rendered
+    JSON, 500); without a template the shape does not matter (`user_data_unreachable`). -/
+theorem user_data_shape (cfg : Cfg) (t : Token) (c : CSR) (u : UserData) (enc : Enc) (crt : Cert)
+    (ht : cfg.hasTemplate = true) (hp : cfg.prov = .jwk) (hbad : u.extsOK = false) :
+    sign cfg t c (some u) enc ≠ .issued crt := by
+  intro h
+  have hf : templateFails (authorize cfg t) (templateUser cfg (some u)) = true := by
+    simp [templateFails, authorize, hp, ht, templateUser, hbad]
+  unfold sign at h
+  split at h
+  · cases h
+  · split at h
+    · cases h
+    · split at h
+      · cases h
+      · cases h
+
+example :
+    sign ⟨.jwk, false, noClaims, noClaims, ⟨0, [1]⟩⟩ ⟨⟨.dns, s "a", s "a"⟩, [], .absent, none, none, none, []⟩
+      ⟨true, [], [], [], [], [], 1, true, []⟩ none ⟨true, true, some true, some false⟩ = .refused 403 := by decide
 
 /-! ## 7. Nebula and K8sSA -/
 
@@ -648,21 +742,21 @@ example :
     request ⟨.nebula, false, noClaims, noClaims, ⟨0, [1]⟩⟩
       ⟨⟨.dns, s "evil", s "evil"⟩, [⟨.dns, s "evil.example.com", s "evil.example.com"⟩, ⟨.ip, s "8.8.8.8", s "8.8.8.8"⟩],
         .absent, none, none, some ⟨.dns, s "host-a.neb", s "host-a.neb"⟩, [s "10.1.1.7"]⟩
-      ⟨true, [], [], [], [], [], 1, true, []⟩ none ⟨true, true⟩ = .unauthorized 403 := by decide
+      ⟨true, [], [], [], [], [], 1, true, []⟩ none ⟨true, true, none, none⟩ = .unauthorized 403 := by decide
 
 /-- a token that lists its own name and a respelled own address is accepted; the subject is free -/
 example :
     request ⟨.nebula, false, noClaims, noClaims, ⟨0, [1]⟩⟩
       ⟨⟨.dns, s "svc", s "svc"⟩, [⟨.ip, s "::ffff:10.1.1.7", s "10.1.1.7"⟩, ⟨.dns, s "host-a.neb", s "host-a.neb"⟩],
         .absent, none, none, some ⟨.dns, s "host-a.neb", s "host-a.neb"⟩, [s "10.1.1.7"]⟩
-      ⟨true, [], [], [], [], [], 1, true, []⟩ none ⟨true, true⟩
+      ⟨true, [], [], [], [], [], 1, true, []⟩ none ⟨true, true, none, none⟩
     = .issued ⟨s "svc", [s "host-a.neb"], [s "10.1.1.7"], [], [], 1, [⟨0, [1]⟩]⟩ := by decide
 
 /-- the same Nebula certificate without a `sans` claim: only its own name and address -/
 example :
     sign ⟨.nebula, false, noClaims, noClaims, ⟨0, [1]⟩⟩
       ⟨⟨.dns, s "host-a.neb", s "host-a.neb"⟩, [], .absent, none, none, some ⟨.dns, s "host-a.neb", s "host-a.neb"⟩, [s "10.1.1.7"]⟩
-      ⟨true, s "host-a.neb", [s "host-a.neb"], [s "10.1.1.7"], [], [], 1, true, []⟩ none ⟨true, true⟩
+      ⟨true, s "host-a.neb", [s "host-a.neb"], [s "10.1.1.7"], [], [], 1, true, []⟩ none ⟨true, true, none, none⟩
     = .issued ⟨s "host-a.neb", [s "host-a.neb"], [s "10.1.1.7"], [], [], 1, [⟨0, [1]⟩]⟩ := by decide
 
 /-- **k8ssa_names_from_request.** Kubernetes service-account tokens carry no names: with the
@@ -676,6 +770,76 @@ theorem k8ssa_names_from_request (cfg : Cfg) (t : Token) (c : CSR) (ud : Option 
   obtain ⟨_, _, _, rfl⟩ := sign_issued h
   simp [finalCert, authorize, hp, ht, applyTemplate, applyAdmin]
 
+/-! ## 8. registration-authority mode -/
+
+def raNames (c1 : Cert) : List San :=
+  c1.dns.map (fun v => ⟨.dns, v, v⟩) ++ c1.emails.map (fun v => ⟨.email, v, v⟩) ++
+  c1.ips.map (fun v => ⟨.ip, v, v⟩) ++ c1.uris.map (fun v => ⟨.uri, v, v⟩)
+
+theorem ofKind_map_same (k : Kind) (l : List Str) :
+    ofKind k (l.map fun v => (⟨k, v, v⟩ : San)) = l := by
+  induction l with
+  | nil => rfl
+  | cons a as ih => simp only [ofKind] at ih ⊢; simp [ih]
+
+theorem ofKind_map_other (k k' : Kind) (hk : k' ≠ k) (l : List Str) :
+    ofKind k (l.map fun v => (⟨k', v, v⟩ : San)) = [] := by
+  induction l with
+  | nil => rfl
+  | cons a as ih => simp only [ofKind] at ih ⊢; simp [hk, ih]
+
+theorem createSANs_raNames (c1 : Cert) : createSANs (raNames c1) = c1.names := by
+  simp [createSANs, raNames, Cert.names, ofKind_append, ofKind_map_same, ofKind_map_other]
+
+theorem raToken_sans (c1 : Cert) (k : Kind) : (raToken c1 k).sans = raNames c1 := by
+  simp [raToken, raNames]
+
+theorem raToken_sub (c1 : Cert) (k : Kind) (h : c1.cn ≠ []) : (raToken c1 k).sub.raw = c1.cn := by
+  unfold raToken
+  cases hcn : c1.cn with
+  | nil => exact absurd hcn h
+  | cons a as => simp
+
+/-- **ra_names_exact.** The same guarantee in registration-authority mode (the authority forwards
+    to an issuing step-ca through cas/stepcas): for a JWK or X5C end-entity token the certificate the
+    issuing CA returns names exactly the token's names, its common name is the token subject
+    whatever common name the CSR carried, its key is the CSR's, and its single provisioner
+    extension is the issuing CA's. -/
+theorem ra_names_exact (cfg : Cfg) (g : Ext) (t : Token) (c : CSR) (ud : Option UserData) (enc : Enc) (crt : Cert)
+    (hp : cfg.prov = .jwk ∨ cfg.prov = .x5c) (hsub : t.sub.raw ≠ []) (hg : g.isProv = true)
+    (h : raRequest cfg g t c ud enc = .issued crt) :
+    crt.names = createSANs (effSans t) ∧ crt.cn = t.sub.raw ∧ crt.key = c.key ∧
+    crt.exts.filter Ext.isProv = [g] := by
+  unfold raRequest at h
+  split at h
+  · rename_i c1 hr
+    obtain ⟨_, hs1⟩ := request_issued hr
+    obtain ⟨hn1, hc1, _⟩ := names_exact cfg t c ud _ c1 hp hs1
+    have hcn : c1.cn ≠ [] := by rw [hc1]; exact hsub
+    obtain ⟨hn2, hc2, hk2⟩ := names_exact (issuerCfg g) (raToken c1 t.sub.kind) c none _ crt (.inl rfl) h
+    have hext := ext_once (issuerCfg g) (raToken c1 t.sub.kind) c none _ crt hg rfl h
+    have hne : (raNames c1).isEmpty = false := by
+      cases hl : raNames c1 with
+      | nil =>
+        have : c1.names = [] := by rw [← createSANs_raNames, hl]; rfl
+        rw [hn1] at this
+        have hlen := (createSANs_perm (effSans t)).length_eq
+        rw [this] at hlen
+        unfold effSans at hlen
+        split at hlen
+        · simp at hlen
+        · rename_i hne
+          simp at hlen
+          exact absurd (List.eq_nil_of_length_eq_zero hlen.symm) (by simpa using hne)
+      | cons _ _ => rfl
+    have heff : effSans (raToken c1 t.sub.kind) = raNames c1 := by
+      simp [effSans, raToken_sans, hne]
+    refine ⟨?_, ?_, hk2, hext⟩
+    · rw [hn2, heff, createSANs_raNames, hn1]
+    · rw [hc2, raToken_sub c1 _ hcn, hc1]
+  · rename_i hne
+    exact absurd h (by intro h'; exact hne _ h')
+
 /-! ## further examples: the hypotheses of the theorems above are satisfiable -/
 
 /-- csr_narrow_refused: token a, b; the CSR lists only a -/
@@ -683,14 +847,14 @@ example :
     let a : San := ⟨.dns, s "a", s "a"⟩
     let b : San := ⟨.dns, s "b", s "b"⟩
     sign ⟨.x5c, false, noClaims, noClaims, ⟨0, []⟩⟩ ⟨a, [a, b], .absent, none, none, none, []⟩
-      ⟨true, [], [s "a"], [], [], [], 1, true, []⟩ none ⟨true, true⟩ = .refused 403 := by decide
+      ⟨true, [], [s "a"], [], [], [], 1, true, []⟩ none ⟨true, true, none, none⟩ = .refused 403 := by decide
 
 /-- …while a CSR without any DNS name is accepted and gets both -/
 example :
     let a : San := ⟨.dns, s "a", s "a"⟩
     let b : San := ⟨.dns, s "b", s "b"⟩
     sign ⟨.x5c, false, noClaims, noClaims, ⟨0, []⟩⟩ ⟨a, [a, b], .absent, none, none, none, []⟩
-      ⟨true, [], [], [], [], [], 1, true, []⟩ none ⟨true, true⟩
+      ⟨true, [], [], [], [], [], 1, true, []⟩ none ⟨true, true, none, none⟩
     = .issued ⟨s "a", [s "a", s "b"], [], [], [], 1, [⟨0, []⟩]⟩ := by decide
 
 /-- csr_cn_refused: X5C refuses a common name equal to a SAN that is not the subject, JWK accepts it
@@ -699,20 +863,20 @@ example :
     let a : San := ⟨.dns, s "a", s "a"⟩
     let b : San := ⟨.dns, s "b", s "b"⟩
     sign ⟨.x5c, false, noClaims, noClaims, ⟨0, []⟩⟩ ⟨a, [a, b], .absent, none, none, none, []⟩
-      ⟨true, s "b", [], [], [], [], 1, true, []⟩ none ⟨true, true⟩ = .refused 403 ∧
+      ⟨true, s "b", [], [], [], [], 1, true, []⟩ none ⟨true, true, none, none⟩ = .refused 403 ∧
     sign ⟨.jwk, false, noClaims, noClaims, ⟨0, []⟩⟩ ⟨a, [a, b], .absent, none, none, none, []⟩
-      ⟨true, s "b", [], [], [], [], 1, true, []⟩ none ⟨true, true⟩
+      ⟨true, s "b", [], [], [], [], 1, true, []⟩ none ⟨true, true, none, none⟩
     = .issued ⟨s "a", [s "a", s "b"], [], [], [], 1, [⟨0, []⟩]⟩ := by decide
 
 /-- ext_disabled_absent: hypotheses satisfiable -/
 example :
     sign ⟨.jwk, false, noClaims, ⟨none, some true, none⟩, ⟨0, [1]⟩⟩ ⟨⟨.dns, s "a", s "a"⟩, [], .absent, none, none, none, []⟩
-      ⟨true, [], [], [], [], [], 1, true, [⟨0, [66]⟩]⟩ (some ⟨[⟨0, [67]⟩], 5⟩) ⟨true, true⟩
+      ⟨true, [], [], [], [], [], 1, true, [⟨0, [66]⟩]⟩ (some ⟨[⟨0, [67]⟩], 5, true⟩) ⟨true, true, none, none⟩
     = .issued ⟨s "a", [s "a"], [], [], [], 1, []⟩ := by decide
 
 /-- ext_once with a template that echoes user extensions: forged extension replaced in place -/
 example :
     sign ⟨.jwk, true, noClaims, noClaims, ⟨0, [1]⟩⟩ ⟨⟨.dns, s "a", s "a"⟩, [], .absent, none, none, none, []⟩
-      ⟨true, [], [], [], [], [], 1, true, []⟩ (some ⟨[⟨3, [9]⟩, ⟨0, [67]⟩], 5⟩) ⟨true, true⟩
+      ⟨true, [], [], [], [], [], 1, true, []⟩ (some ⟨[⟨3, [9]⟩, ⟨0, [67]⟩], 5, true⟩) ⟨true, true, none, none⟩
     = .issued ⟨s "a", [s "a"], [], [], [], 1, [⟨3, [9]⟩, ⟨0, [1]⟩]⟩ := by decide
 end Verif.SignNames
